@@ -12,13 +12,17 @@ Rec == ndJsonDeserialize(IOEnv.TRACE)
 VARIABLES l, bad
 
 Slack(e) == IF "slack_ms" \in DOMAIN e THEN e.slack_ms ELSE 50
+RealTime(e) == "transport" \in DOMAIN e /\ e.transport = "tcp"
 Ok(e) ==
   /\ e.handler_runs <= 1                                              \* never executed twice
   /\ e.outcome \in {"reply", "ConnectionError", "Timeout", "pending"}   \* nothing else
   /\ e.outcome = "reply" => (e.reply_id = e.id /\ e.payload_ok /\ e.handler_runs = 1)   \* that very request's reply
   /\ e.timeout_ms > 0 => (e.outcome # "pending" /\ e.elapsed_ms <= e.timeout_ms + Slack(e))   \* answered or timed out in time
   /\ e.outcome = "Timeout" => e.timeout_ms > 0
-  /\ e.faults = 0 => e.outcome = "reply"                              \* no fault, no failure
+  \* no fault, no failure - in real time a request may honestly take longer than a short timeout (a reply of a megabyte
+  \* on a busy machine): then the timeout is the answer, and it does not come before its time
+  /\ e.faults = 0 => (e.outcome = "reply" \/ (RealTime(e) /\ e.outcome = "Timeout" /\ e.timeout_ms > 0))
+  /\ (RealTime(e) /\ e.outcome = "Timeout") => e.elapsed_ms + 2 >= e.timeout_ms
 
 Init == l = 1 /\ bad = <<>>
 Next == /\ l <= Len(Rec) /\ l' = l + 1
